@@ -123,28 +123,29 @@ def generate(ctx):
     if not labels:
         raise Untranslatable("training_loop: no checkpoint on the exception paths", loop_fn.lineno, path2)
     out += "Definition kill_labels (it : Z) : list Z := [%s].\n" % "; ".join(labels)
-    # guard and label inside checkpoint_and_write_to_logs
-    cw = pg.find_def(tree2, "Engine.checkpoint_and_write_to_logs", path2)
-    body = pg.strip_doc(cw.body)
-    if not (isinstance(body[0], ast.If) and len(body[0].body) == 1 and ast.unparse(body[0].body[0]).startswith("self.checkpointer.save(") and not body[0].orelse):
-        raise Untranslatable("checkpoint_and_write_to_logs: expected `if <guard>: self.checkpointer.save(<label>)`", cw.lineno, path2)
-    tr = pg.ExprT({"iter_idx": "lbl"}, path2, truthy_int=False)
-    out += "Definition kill_guard (lbl : Z) : bool := %s.\n" % tr.b(body[0].test)
-    out += "Definition kill_saved_label (lbl : Z) : Z := %s.\n" % tr.z(body[0].body[0].value.args[0])
-    # regular checkpoint
-    cm = pg.find_def(tree2, "Engine.checkpoint_model_at_interval", path2)
-    body = pg.strip_doc(cm.body)
-    saves = [n for n in ast.walk(cm) if isinstance(n, ast.Call) and ast.unparse(n.func) == "self.checkpointer.save"]
-    if len(saves) != 1:
-        raise Untranslatable("checkpoint_model_at_interval: expected exactly one save", cm.lineno, path2)
-    tr = pg.ExprT({"iter_idx": "it", "total_iter": "total", "self.cfg.training.checkpointer.checkpoint_steps": "steps"}, path2, truthy_int=False)
-    out += "Definition reg_label (it : Z) : Z := %s.\n" % tr.z(saves[0].args[0])
-    conds = []
-    node = body[0]
-    while isinstance(node, ast.If):
-        conds.append(tr.b(node.test))
-        node = node.body[0]
-    out += "Definition reg_guard (it total steps : Z) : bool := %s.\n" % (" && ".join(conds) if conds else "true")
+    # guard and label of the two places that save: every call of checkpointer.save met by a symbolic execution
+    # (vlib/symex.py), with the conditions of the path that reaches it
+    from .. import symex as X
+
+    S = lambda n: ("sym", n)
+    steps_v = X.parse_expr("self.cfg.training.checkpointer.checkpoint_steps")
+
+    def save_site(qual, leaf, what):
+        hits, stopped = X.watch_calls(tree2, path2, qual, ["save"])
+        saves = [(c, a_, k_) for c, a_, k_ in hits["save"]]
+        if len(saves) != 1 or len(saves[0][1]) != 1 or saves[0][2]:
+            raise Untranslatable("%s: expected exactly one self.checkpointer.save(<label>) (%s)" % (what, stopped), None, path2)
+        conds, args, _kw = saves[0]
+        em = X.Emit(lambda v: leaf.get(v), path2)
+        guard = " && ".join(em.b(c) if pol else "(negb %s)" % em.b(c) for c, pol in conds) or "true"
+        return guard, em.z(args[0])
+
+    g, lbl = save_site("Engine.checkpoint_and_write_to_logs", {S("iter_idx"): "lbl"}, "checkpoint_and_write_to_logs")
+    out += "Definition kill_guard (lbl : Z) : bool := %s.\n" % g
+    out += "Definition kill_saved_label (lbl : Z) : Z := %s.\n" % lbl
+    g, lbl = save_site("Engine.checkpoint_model_at_interval", {S("iter_idx"): "it", S("total_iter"): "total", steps_v: "steps"}, "checkpoint_model_at_interval")
+    out += "Definition reg_label (it : Z) : Z := %s.\n" % lbl
+    out += "Definition reg_guard (it total steps : Z) : bool := %s.\n" % g
     # the regular save is issued after the update of the same iteration
     src_loop = None
     for node in loop_fn.body:
